@@ -107,6 +107,9 @@ type rateLimiter struct {
 	limitStoreMap  map[int]_interface.LimitStore
 	// shards whose store is being loaded (guarded by limitStoreLock)
 	loadingShards map[int]bool
+	// number of times a shard was lost (guarded by limitStoreLock): a store whose load overlapped a loss is dropped,
+	// even when the shard has been regained meanwhile (what it listed may predate the interim holder's writes)
+	lostCount map[int]int
 
 	upstreamController controller.UpstreamController
 	// upstreamLock holds one mutex per upstream; the map itself is read by every status report and
@@ -512,6 +515,7 @@ func (r *rateLimiter) startLeading(shardId int) {
 		r.loadingShards = map[int]bool{}
 	}
 	r.loadingShards[shardId] = true
+	lostBefore := r.lostCount[shardId]
 	r.limitStoreLock.Unlock()
 	defer func() {
 		r.limitStoreLock.Lock()
@@ -533,10 +537,11 @@ func (r *rateLimiter) startLeading(shardId int) {
 	}
 
 	r.limitStoreLock.Lock()
-	if !r.leaderElector.IsLeader(shardId) {
-		// leadership was lost while the store was loading; stopLeading found nothing to stop
+	if !r.leaderElector.IsLeader(shardId) || r.lostCount[shardId] != lostBefore {
+		// leadership was lost while the store was loading; stopLeading found nothing to stop.
+		// If the shard has been regained since, the next leader check loads it afresh.
 		r.limitStoreLock.Unlock()
-		klog.Infof("Shard %v is not led any more, drop the loaded limit store", shardId)
+		klog.Infof("Shard %v was lost while its limit store was loading, drop the loaded limit store", shardId)
 		stopLimitStoreWithRetry(limitStore, shardId)
 		return
 	}
@@ -573,6 +578,10 @@ func (r *rateLimiter) syncUpstreamClustersForShard(shardId int) error {
 
 func (r *rateLimiter) stopLeading(shardId int) {
 	r.limitStoreLock.Lock()
+	if r.lostCount == nil {
+		r.lostCount = map[int]int{}
+	}
+	r.lostCount[shardId]++
 	limitStore, ok := r.limitStoreMap[shardId]
 	if !ok {
 		klog.Errorf("Load limit store for shard %v not found", shardId)
